@@ -253,6 +253,19 @@ struct c20_session : public vsim_session {
         o << "\n";
       }
       for (colvarbias *b : cv->biases) o << "SEMBIAS " << b->name << " " << vs_hex(b->get_energy()) << "\n";
+      // dependency state of every object as `get <feature>` must report it: description, available, enabled ('\x1f' separated)
+      for (colvar *c : *(cv->variables())) {
+        o << "SEMFEAT c:" << c->name;
+        for (size_t i = 0; i < c->features().size(); i++)
+          o << "\x1f" << c->features()[i]->description << "\x1f" << (c->is_available(i) ? 1 : 0) << "\x1f" << (c->is_enabled(i) ? 1 : 0);
+        o << "\n";
+      }
+      for (colvarbias *b : cv->biases) {
+        o << "SEMFEAT b:" << b->name;
+        for (size_t i = 0; i < b->features().size(); i++)
+          o << "\x1f" << b->features()[i]->description << "\x1f" << (b->is_available(i) ? 1 : 0) << "\x1f" << (b->is_enabled(i) ? 1 : 0);
+        o << "\n";
+      }
       o << "SEMEND\n";
       return true;
     }
